@@ -117,6 +117,14 @@ func coqAnns(im *Img) string {
 	return "[" + strings.Join(q, ";") + "]"
 }
 
+func coqEntObs(es []EntObs) string {
+	q := make([]string, len(es))
+	for i, e := range es {
+		q[i] = fmt.Sprintf("(%s, %s, %s)", coqStr(e.Name), coqStr(e.Schema), coqStrs(e.Events))
+	}
+	return "[" + strings.Join(q, ";") + "]"
+}
+
 func coqImg(im *Img) string {
 	svcs := make([]string, len(im.Services))
 	for i, s := range im.Services {
